@@ -2,6 +2,8 @@
 import glob, json, os
 V = os.path.dirname(os.path.dirname(os.path.abspath(__file__)))
 HIST = {
+    "C15b-m1": "missed at first (no multi-step history involving the sampler; the quick tier only counts the enumeration): bounded C15 now uses the test sampler and looks at the enumerated set again - on a stubbed 300-element set in the quick tier, on the real 5.9-million set in the thorough tier",
+    "C15b-m2": "missed by the quick tier at first (the 7 offenders are one-element neighbours of a legacy image and were not in the 20,000-configuration sample; the thorough tier evaluates is_legacy_equivalent on every tokenizer): the quick tier now adds the one-element neighbours of the legacy images",
     "C20b-m1": "missed at first (the bounded solved mazes stored BFS shortest paths, which the solver reproduces); bounded C20 now stores randomised simple paths on cyclic mazes - the plot must draw the stored solution",
     "C07b-m2": "the triggering mazes (last row or last column without any connection) are outside C07's own quantifier (`every row and column index occurs in some connection`), so C07's check says nothing; the change is in from_adj_list, whose clause belongs to C13, and C13 reports it",
     "C11b-m1": "the clause `saved-where` (the file is written under the very name the request is looked up by) was added to the from_config contract when this change was delivered; the bounded fault experiments report it independently (no cache file under the requested name after the request)",
